@@ -15,13 +15,14 @@ LEVEL_TEXT = ('Lean 4 theorems, for all shapes, masks, amplitudes and OPDs: a su
               'restricted to s (slice_offset regenerated from helper.py on every run); the phasors of masks with pairwise disjoint supports '
               'add up to the phasor of the global mask, also with overlapping bounding boxes; a plane multiplies the summed embedding by its '
               'transmission, so chains of planes give the same total field for both descriptions; propagate_dft is additive in the embedded '
-              'field; intensity is the squared modulus of the coherent sum. The NumPy plumbing is a hand model checked against the '
+              'field; intensity is the squared modulus of the coherent sum; composed end to end (segmented_eq_monolithic_end_to_end): fresh wavefront, '
+              'any chain of partitioned planes, propagation (generated window block) -> equal Wavefront.field and intensity at every sample. The NumPy plumbing is a hand model checked against the '
               'implementation, with both descriptions run on the real code.')
 LEVEL_NOTE = ('Partial: segments / intermediate fields with exactly one element are excluded by hypothesis (open known finding '
               'KF-C03-one-pixel-segment); propagation is modelled for tilt-free fields without output mask (tilt and masks: C04, C02). '
               'Trusted: Lean kernel, py2lean subset semantics, NumPy semantics as modelled, np.dot sums, generator coverage.')
 TECHNIQUE = 'Lean 4 proof (omega/induction/Finset sums) over translator-regenerated kernels + hand model with differential correspondence'
-GEN = ['Extent', 'FieldIdx', 'Helper']
+GEN = ['Extent', 'FieldIdx', 'Helper', 'Window']
 OPS = ['C07', 'C03']
 RULE = ('cases: random supports on shapes 2..7, partitions into 1..5 segments (random labels = overlapping bounding boxes in half the cases, '
         'bands otherwise), chains of 1..3 masked Pupil planes with scalar/array amplitude and OPD, each plane described segmented or '
@@ -35,7 +36,7 @@ UNPROVEN = [
             'chains with tilt elements (Tilt planes, Wavefront(tilt=), fitted tilts) are covered by correspondence (Model/PlaneTilt.lean + builderB Model/Propagate.lean, Model/Tilt.lean) and by the oracle; the end-to-end theorem is stated for tilt-free chains (tilt shifts: C04)',
             'partitions containing a segment (or producing an intermediate field) with exactly one element (known finding KF-C03-one-pixel-segment)',
             'propagation with fitted tilt or an output mask is outside this model (C04, C02)']
-ASSUMPTIONS = ['every segment bounding box and every intermediate field has more than one element',
+ASSUMPTIONS = ['every segment bounding box and every intersection of boxes along the chain has more than one element (ExtOK: a condition on the bounding slices and shapes of the input, used by segmented_eq_monolithic_end_to_end)',
                'segment masks of one plane have pairwise disjoint supports']
 
 def _split_plane(rng, mode, shape):
@@ -49,9 +50,10 @@ def _split_plane(rng, mode, shape):
         amp = H7._attr(rng, mode, 'amp', shape, bool(rng.integers(0, 4) == 0))
         opd = H7._attr(rng, mode, 'opd', shape, bool(rng.integers(0, 4) == 0))
         def mk(ls):
+            sc = int(rng.choice([1, 1, 1, 2, -1]))          # raw mask entries other than 0/1: the constructor normalises them
             return {'kind': 'pupil', 'amp': amp, 'opd': opd, 'px': None, 'fl': 1.0,
                     'mask': {'shape': [int(shape[0]), int(shape[1])], 'ndim': 2 if len(ls) == 1 else 3,
-                             'layers': [[int(x) for x in L.ravel()] for L in ls]}}
+                             'layers': [[int(x) * sc for x in L.ravel()] for L in ls]}}
         return mk(layers), mk([M])
     raise RuntimeError('could not build a partition')
 
@@ -381,7 +383,6 @@ def compare(c, io, mo):
         pre = m['pre'] if 'prop' in c else m
         d = _cmp_pre(c, a['pre'], pre, mode, sc)
         if d: return f'{name}: {d}'
-        if len(pre['data']) != a['nfields']: return f"{name}: {a['nfields']} fields, model {len(pre['data'])}"
         if 'prop' in c:
             for key in ('field', 'intensity'):
                 if isinstance(m[key], str): return f'{name}: model {key}: {m[key]}'
